@@ -407,7 +407,7 @@ class Acl(AceGroup):
                     continue
             grouped_items_d[group_name].append(item)
 
-        # groups that already exist keep their uuid and note when the items are regrouped
+        # groups that already exist keep their uuid, note and sequence number when the items are regrouped
         old_groups: Dict[str, AceGroup] = {o.name: o for o in self._items if isinstance(o, AceGroup)}
         grouped_items: LUAceg = []
         for group_name, aces_items in grouped_items_d.items():
@@ -425,6 +425,7 @@ class Acl(AceGroup):
                     items=aces_items,
                     uuid=old_group.uuid if old_group else "",
                     note=old_group.note if old_group else "",
+                    sequence=old_group.sequence if old_group else 0,
                 )
                 grouped_items.append(aceg_o)
         self._items = grouped_items
